@@ -25,7 +25,7 @@ REQUIRED = ["canon_checked/wl", "canon_checked/nauty", "fixed_point_checked", "i
             "invariance_checked/wl", "standardize_checked", "validator_renumberings", "validator_transpositions",
             "validator_rejections_expected", "validator_acceptances_of_transpositions", "balance_true", "balance_false",
             "reactions_with_ties_and_10plus_atoms", "h_species_balance_cases", "shared_instance_checked", "validator_record_entry_points",
-            "notation_balance_checked", "notation_dative_right_arrow", "notation_dative_left_arrow", "lookalike_reactions_distinguishable"]
+            "notation_balance_checked", "notation_dative_right_arrow", "notation_dative_left_arrow", "lookalike_reactions_distinguishable", "big_symmetric_rejections_expected"]
 ASSUMPTIONS = [
     "numbering independence of CanonRSMI is only demanded when all reactant atoms are distinguishable for the back-end: "
     "nauty - trivial automorphism group of the reactant graph; wl - discrete 3-iteration WL colouring (recomputed in the harness)",
@@ -316,9 +316,57 @@ def check_notation(ctx):
             ctx.case(("notation", va, vb), nontrivial=True, sample={"space": "notation reactions", "rsmi": va + ">>" + vb} if rng.random() < 0.05 else None)
 
 
+def big_symmetric_reactions():
+    """mapped reactions with > 48 atoms in which two copies of the same small reagent react with a symmetric substrate
+    (hydrogenation of diphenylacetylene next to two PPh3 spectators ...): transposing atoms between the two copies leaves
+    every local environment unchanged."""
+    def ph(a):
+        return "[c:%d]1[cH:%d][cH:%d][cH:%d][cH:%d][cH:%d]1" % tuple(range(a, a + 6))
+
+    def pph3(a):
+        return "[P:%d](%s)(%s)%s" % (a, ph(a + 1), ph(a + 7), ph(a + 13))
+
+    spect = pph3(19) + "." + pph3(38)
+    out = []
+    react = "[H:1][H:2].[H:3][H:4].[C:5](#[C:6]%s)%s.%s" % (ph(13), ph(7), spect)
+    prod = "[H:1][C:5]([H:3])(%s)[C:6]([H:2])([H:4])%s.%s" % (ph(7), ph(13), spect)
+    out.append((react + ">>" + prod, [(2, 3), (1, 4), (1, 2)]))
+    react = "[Br:1][Br:2].[Br:3][Br:4].[C:5](#[C:6]%s)%s.%s" % (ph(13), ph(7), spect)
+    prod = "[Br:1][C:5]([Br:3])(%s)[C:6]([Br:2])([Br:4])%s.%s" % (ph(7), ph(13), spect)
+    out.append((react + ">>" + prod, [(2, 3), (1, 4)]))
+    return out
+
+
+def check_big_symmetric(ctx):
+    from synkit.Chem.Reaction.aam_validator import AAMValidator
+    for k, (r, swaps) in enumerate(big_symmetric_reactions()):
+        if not ctx.mine(k):
+            continue
+        g = ref_validator_its(r)
+        if g is None:
+            ctx.count("big_symmetric_unreadable")
+            continue
+        for i, j in swaps:
+            t = transpose_product_maps(r, i, j)
+            gt = ref_validator_its(t)
+            if gt is None:
+                continue
+            for method in ("ITS", "RC"):
+                exp = iso(gt, g) if method == "ITS" else iso(ref_rc(gt), ref_rc(g))
+                got = AAMValidator.smiles_check(t, r, check_method=method)
+                ctx.count("big_symmetric_transpositions_checked")
+                if not exp:
+                    ctx.count("big_symmetric_rejections_expected")
+                if got != exp:
+                    ctx.violation("validator-transposition", {"rsmi": r[:300], "swap": [i, j], "method": method, "atoms": g.number_of_nodes()},
+                                  f"smiles_check({method}) = {got} for a {g.number_of_nodes()}-atom reaction with product maps {i}<->{j} swapped; reference isomorphism says {exp}")
+        ctx.case(("bigsym", k), nontrivial=True, sample={"space": "large symmetric reactions", "atoms": g.number_of_nodes(), "swaps": swaps})
+
+
 def run(ctx):
     rng = ctx.rng
     check_notation(ctx)
+    check_big_symmetric(ctx)
     # reactions with look-alike atoms (same element/charge/H/degree, different bond orders around them)
     for t in range(30 if ctx.quick else 300):
         if ctx.out_of_time(0.3):
